@@ -48,7 +48,8 @@ func (c *Conversation) receiveUnit(m ValidMessage, forgetFragments bool) (plain 
 }
 
 func (c *Conversation) receiveWithoutOTR(message ValidMessage) (MessagePlaintext, []ValidMessage, error) {
-	return MessagePlaintext(message), nil, nil
+	// the caller wipes its copy of the message on return, so hand out our own
+	return MessagePlaintext(makeCopy(message)), nil, nil
 }
 
 func withoutPotentialSpaceStart(msg []byte) []byte {
